@@ -10,6 +10,7 @@
 import MainlineModel.Lemmas.ActorLemmas
 import MainlineModel.Props.C11
 import MainlineModel.Lemmas.SocketLemmas
+import MainlineModel.Props.C02
 namespace Mainline.Props.C07
 open Mainline Mainline.Actor Mainline.ClosestNodes
 
@@ -151,5 +152,503 @@ theorem response_nodes_are_merged (q : IterQuery) (now : Nat) (m : Message) (r :
     (hm : m.mtype = .response r) (hn : Response.closerNodes r = some ns) :
     absorbNodes q now m = addCandidates q ns now := by
   simp [absorbNodes, hm, hn]
+
+
+/-! ## The whole lookup: closure over every history of answers -/
+
+/-- the identity of a node is its id and address (token and last-seen time are bookkeeping) -/
+def Same (a b : Node) : Prop := a.id = b.id ∧ a.addr = b.addr
+
+/-- a candidate list holds (an entry for) the node -/
+def Represented (c : ClosestNodes) (n : Node) : Prop := ∃ e ∈ c.nodes, Same e n
+
+/-- an honest population of nodes: 20-byte ids, one address per id, one id per address, one node
+    per IP -/
+structure Honest (U : Id → Addr → Prop) : Prop where
+  len20 : ∀ i a, U i a → i.bytes.length = 20
+  id_of_addr : ∀ i j a, U i a → U j a → i = j
+  addr_of_id : ∀ i a b, U i a → U i b → a = b
+  one_per_ip : ∀ i j a b, U i a → U j b → a.ip = b.ip → a = b
+
+def AllIn (U : Id → Addr → Prop) (l : List Node) : Prop := ∀ e ∈ l, U e.id e.addr
+
+/-- in an honest population `ClosestNodes::add` never loses a node: afterwards the list holds the
+    offered node, everything it held before, and only members of the population -/
+theorem add_honest (U : Id → Addr → Prop) (hU : Honest U) (c : ClosestNodes) (ht : c.target.bytes.length = 20)
+    (hs : c.nodes.Pairwise (keyLt c.target)) (hc : AllIn U c.nodes) (n : Node) (hn : U n.id n.addr) :
+    Represented (c.add n) n ∧ (∀ e ∈ c.nodes, e ∈ (c.add n).nodes) ∧ AllIn U (c.add n).nodes := by
+  unfold ClosestNodes.add
+  split
+  · rename_i hae
+    refine ⟨?_, fun e he => he, hc⟩
+    unfold Node.alreadyExists at hae
+    obtain ⟨e, he, hcond⟩ := List.any_eq_true.1 hae
+    simp only [Bool.and_eq_true] at hcond
+    have hip : n.addr.ip = e.addr.ip := by
+      have := hcond.1; unfold Node.sameIp at this; simpa using this
+    have haddr : n.addr = e.addr := hU.one_per_ip _ _ _ _ hn (hc e he) hip
+    have hid : e.id = n.id := hU.id_of_addr _ _ _ (hc e he) (by rw [← haddr]; exact hn)
+    exact ⟨e, he, hid, haddr.symm⟩
+  · rcases insert_perm c n hs with ⟨hperm, _⟩ | ⟨heq, e, he, heeq⟩
+    · refine ⟨⟨n, hperm.symm.subset List.mem_cons_self, rfl, rfl⟩, ?_, ?_⟩
+      · intro e he; exact hperm.symm.subset (List.mem_cons_of_mem _ he)
+      · intro e he
+        rcases List.mem_cons.1 (hperm.subset he) with rfl | h
+        · exact hn
+        · exact hc e h
+    · rw [heq]
+      refine ⟨?_, fun e he => he, hc⟩
+      have hid : e.id = n.id := C11.cmpProbe_eq_same_id c.target n e ht (hU.len20 _ _ hn) (hU.len20 _ _ (hc e he)) heeq
+      have haddr : e.addr = n.addr := hU.addr_of_id _ _ _ (hc e he) (by rw [hid]; exact hn)
+      exact ⟨e, he, hid, haddr⟩
+
+/-- the state of a lookup's candidate list that the closure argument needs -/
+structure CandOk (U : Id → Addr → Prop) (q : IterQuery) : Prop where
+  target20 : q.closest.target.bytes.length = 20
+  sorted : q.closest.nodes.Pairwise (keyLt q.closest.target)
+  allIn : AllIn U q.closest.nodes
+
+theorem addCandidates_honest (U : Id → Addr → Prop) (hU : Honest U) (ns : List Node) (now : Nat) :
+    ∀ q : IterQuery, CandOk U q → AllIn U ns →
+      CandOk U (addCandidates q ns now) ∧ (∀ n ∈ ns, Represented (addCandidates q ns now).closest n) ∧
+      (∀ e ∈ q.closest.nodes, e ∈ (addCandidates q ns now).closest.nodes) ∧
+      (addCandidates q ns now).visited = q.visited ∧ (addCandidates q ns now).closest.target = q.closest.target := by
+  unfold addCandidates
+  induction ns with
+  | nil => intro q hq _; exact ⟨hq, by simp, fun e he => he, rfl, rfl⟩
+  | cons n ns ih =>
+    intro q hq hns
+    simp only [List.foldl_cons]
+    have hn : U ({ n with lastSeen := now } : Node).id ({ n with lastSeen := now } : Node).addr := hns n List.mem_cons_self
+    obtain ⟨hrep, hmono, hall⟩ := add_honest U hU q.closest hq.target20 hq.sorted hq.allIn { n with lastSeen := now } hn
+    have hq' : CandOk U { q with closest := q.closest.add { n with lastSeen := now } } :=
+      ⟨by simp only [add_target]; exact hq.target20,
+       by simp only [add_target]; exact C11.add_preserves_sorted q.closest _ hq.sorted, hall⟩
+    obtain ⟨i1, i2, i3, i4, i5⟩ := ih _ hq' (fun e he => hns e (List.mem_cons_of_mem _ he))
+    refine ⟨i1, ?_, fun e he => i3 e (hmono e he), i4, by rw [i5]; exact add_target _ _⟩
+    intro m hm
+    rcases List.mem_cons.1 hm with rfl | hm
+    · obtain ⟨e, he, hsame⟩ := hrep
+      exact ⟨e, i3 e he, hsame⟩
+    · exact i2 m hm
+
+/-! ### the lookup's life as a history of operations -/
+
+/-- what happens to one lookup: a message attributed to it is handled (`handle_response`), some
+    addresses are visited (`visit`: bootstrap nodes, seeds), or its closest unvisited candidates are
+    visited (`visit_closest`, every tick) -/
+inductive LOp
+  | msg (env : Env) (src : Addr) (m : Message)
+  | visitAddrs (a : Actor) (tos : List Addr) (now : Nat)
+  | visitClosest (a : Actor) (now : Nat)
+
+def lstep (q : IterQuery) : LOp → IterQuery
+  | .msg env src m => (lookupStep q env src m).1
+  | .visitAddrs a tos now => (a.visitAll q tos now).2
+  | .visitClosest a now => (a.visitAll q q.closestCandidates now).2
+
+def lrun (q : IterQuery) (ops : List LOp) : IterQuery := ops.foldl lstep q
+
+/-- the values handed to the lookup's callers along the way -/
+def lemits (q : IterQuery) : List LOp → List Value
+  | [] => []
+  | op :: rest =>
+    (match op with
+     | .msg env src m => (match (lookupStep q env src m).2.1 with
+       | some v => [v]
+       | none => [])
+     | _ => []) ++ lemits (lstep q op) rest
+
+/-- the nodes listed in one message -/
+def listedIn (m : Message) : List Node :=
+  match m.mtype with
+  | .response r => (Response.closerNodes r).getD []
+  | _ => []
+
+/-- every node listed in any answer of the history -/
+def listed : List LOp → List Node
+  | [] => []
+  | .msg _ _ m :: rest => listedIn m ++ listed rest
+  | _ :: rest => listed rest
+
+theorem absorbNodes_eq (q : IterQuery) (now : Nat) (m : Message) :
+    absorbNodes q now m = addCandidates q (listedIn m) now := by
+  unfold absorbNodes listedIn
+  cases hm : m.mtype with
+  | response r =>
+    simp only
+    cases hr : Response.closerNodes r with
+    | some ns => simp
+    | none => simp [addCandidates]
+  | request _ => simp [addCandidates]
+  | error _ => simp [addCandidates]
+
+theorem addCandidates_visited (q : IterQuery) (ns : List Node) (now : Nat) :
+    (addCandidates q ns now).visited = q.visited := by
+  unfold addCandidates
+  induction ns generalizing q with
+  | nil => rfl
+  | cons n ns ih => simp only [List.foldl_cons]; rw [ih]
+
+theorem lookupStep_cands (q : IterQuery) (env : Env) (src : Addr) (m : Message) :
+    (lookupStep q env src m).1.closest = (addCandidates q (listedIn m) env.now).closest ∧
+    (lookupStep q env src m).1.visited = q.visited := by
+  have h1 : ∀ q1 : IterQuery, (absorbToken q1 env.now src m).closest = q1.closest ∧
+      (absorbToken q1 env.now src m).visited = q1.visited := by
+    intro q1; unfold absorbToken
+    split
+    · split <;> exact ⟨rfl, rfl⟩
+    · exact ⟨rfl, rfl⟩
+  have h2 : ∀ q2 : IterQuery, (absorbVote q2 m).closest = q2.closest ∧ (absorbVote q2 m).visited = q2.visited := by
+    intro q2; unfold absorbVote
+    split <;> exact ⟨rfl, rfl⟩
+  have h3 : (absorb q env.now src m).closest = (addCandidates q (listedIn m) env.now).closest ∧
+      (absorb q env.now src m).visited = q.visited := by
+    unfold absorb
+    obtain ⟨a1, a2⟩ := h2 (absorbToken (absorbNodes q env.now m) env.now src m)
+    obtain ⟨b1, b2⟩ := h1 (absorbNodes q env.now m)
+    rw [a1, b1, a2, b2, absorbNodes_eq]
+    exact ⟨rfl, addCandidates_visited q (listedIn m) env.now⟩
+  unfold lookupStep
+  split <;> exact h3
+
+/-- **Every history.** Whatever messages are attributed to the lookup and whenever it visits, in an
+    honest population its candidate list stays sorted, holds every node listed in any answer so
+    far and every earlier candidate, and no address is ever un-visited. -/
+theorem lrun_merged (U : Id → Addr → Prop) (hU : Honest U) (ops : List LOp) :
+    ∀ q : IterQuery, CandOk U q → AllIn U (listed ops) →
+      CandOk U (lrun q ops) ∧ (∀ n ∈ listed ops, Represented (lrun q ops).closest n) ∧
+      (∀ e ∈ q.closest.nodes, e ∈ (lrun q ops).closest.nodes) ∧
+      (∀ a ∈ q.visited, a ∈ (lrun q ops).visited) ∧ (lrun q ops).closest.target = q.closest.target := by
+  unfold lrun
+  induction ops with
+  | nil => intro q hq _; exact ⟨hq, by simp [listed], fun e he => he, fun a ha => ha, rfl⟩
+  | cons op ops ih =>
+    intro q hq hl
+    simp only [List.foldl_cons]
+    cases op with
+    | msg env src m =>
+      have hl1 : AllIn U (listedIn m) := fun e he => hl e (by simp [listed, he])
+      have hl2 : AllIn U (listed ops) := fun e he => hl e (by simp [listed, he])
+      obtain ⟨c1, c2, c3, c4, c5⟩ := addCandidates_honest U hU (listedIn m) env.now q hq hl1
+      obtain ⟨k1, k2⟩ := lookupStep_cands q env src m
+      have hq' : CandOk U (lstep q (.msg env src m)) := by
+        show CandOk U (lookupStep q env src m).1
+        exact ⟨by rw [k1]; exact c1.target20, by rw [k1]; exact c1.sorted, by rw [k1]; exact c1.allIn⟩
+      obtain ⟨i1, i2, i3, i4, i5⟩ := ih _ hq' hl2
+      refine ⟨i1, ?_, ?_, ?_, ?_⟩
+      · intro n hn
+        simp only [listed, List.mem_append] at hn
+        rcases hn with hn | hn
+        · obtain ⟨e, he, hsame⟩ := c2 n hn
+          exact ⟨e, i3 e (by show e ∈ (lookupStep q env src m).1.closest.nodes; rw [k1]; exact he), hsame⟩
+        · exact i2 n hn
+      · intro e he
+        exact i3 e (by show e ∈ (lookupStep q env src m).1.closest.nodes; rw [k1]; exact c3 e he)
+      · intro a ha
+        exact i4 a (by show a ∈ (lookupStep q env src m).1.visited; rw [k2]; exact ha)
+      · rw [i5]; show (lookupStep q env src m).1.closest.target = _; rw [k1]; exact c5
+    | visitAddrs a tos now =>
+      obtain ⟨v1, _, _, _, v5⟩ := visitAll_fields a q tos now
+      have hq' : CandOk U (lstep q (.visitAddrs a tos now)) := by
+        show CandOk U (a.visitAll q tos now).2
+        exact ⟨by rw [v1]; exact hq.target20, by rw [v1]; exact hq.sorted, by rw [v1]; exact hq.allIn⟩
+      obtain ⟨i1, i2, i3, i4, i5⟩ := ih _ hq' (fun e he => hl e (by simpa [listed] using he))
+      refine ⟨i1, fun n hn => i2 n (by simpa [listed] using hn), ?_, fun x hx => i4 x (v5 x hx), ?_⟩
+      · intro e he; exact i3 e (by show e ∈ (a.visitAll q tos now).2.closest.nodes; rw [v1]; exact he)
+      · rw [i5]; show (a.visitAll q tos now).2.closest.target = _; rw [v1]
+    | visitClosest a now =>
+      obtain ⟨v1, _, _, _, v5⟩ := visitAll_fields a q q.closestCandidates now
+      have hq' : CandOk U (lstep q (.visitClosest a now)) := by
+        show CandOk U (a.visitAll q q.closestCandidates now).2
+        exact ⟨by rw [v1]; exact hq.target20, by rw [v1]; exact hq.sorted, by rw [v1]; exact hq.allIn⟩
+      obtain ⟨i1, i2, i3, i4, i5⟩ := ih _ hq' (fun e he => hl e (by simpa [listed] using he))
+      refine ⟨i1, fun n hn => i2 n (by simpa [listed] using hn), ?_, fun x hx => i4 x (v5 x hx), ?_⟩
+      · intro e he; exact i3 e (by show e ∈ (a.visitAll q q.closestCandidates now).2.closest.nodes; rw [v1]; exact he)
+      · rw [i5]; show (a.visitAll q q.closestCandidates now).2.closest.target = _; rw [v1]
+
+
+/-! ### closure -/
+
+/-- the lookup's order only looks at a node's identity -/
+theorem keyLt_same (t : Id) (y e n : Node) (h : Same e n) : keyLt t y e ↔ keyLt t y n := by
+  obtain ⟨hid, haddr⟩ := h
+  have hsec : e.isSecure = n.isSecure := by unfold Node.isSecure; rw [hid, haddr]
+  unfold keyLt
+  rw [hsec, hid]
+
+/-- **Closure, statically.** In a state where every one of the 20 first candidates has been
+    queried, each candidate has either been queried itself or stands behind 20 queried candidates
+    that precede it in the lookup's order (BEP42-secure first, then XOR distance). -/
+theorem closed_candidate (q : IterQuery) (hs : q.closest.nodes.Pairwise (keyLt q.closest.target))
+    (hcl : Closed q) (x : Node) (hx : x ∈ q.closest.nodes) :
+    x.addr ∈ q.visited ∨
+    ((q.closest.nodes.take Constants.K).length = Constants.K ∧
+      ∀ y ∈ q.closest.nodes.take Constants.K, y.addr ∈ q.visited ∧ keyLt q.closest.target y x) := by
+  have hsplit : x ∈ q.closest.nodes.take Constants.K ++ q.closest.nodes.drop Constants.K := by
+    rw [List.take_append_drop]; exact hx
+  rcases List.mem_append.1 hsplit with h | h
+  · exact Or.inl (hcl x h)
+  · right
+    have hlen : Constants.K ≤ q.closest.nodes.length := by
+      by_cases hk : Constants.K ≤ q.closest.nodes.length
+      · exact hk
+      · have : q.closest.nodes.drop Constants.K = [] := List.drop_eq_nil_of_le (by omega)
+        rw [this] at h; cases h
+    refine ⟨by rw [List.length_take]; omega, ?_⟩
+    intro y hy
+    have hp : (q.closest.nodes.take Constants.K ++ q.closest.nodes.drop Constants.K).Pairwise (keyLt q.closest.target) := by
+      rw [List.take_append_drop]; exact hs
+    exact ⟨hcl y hy, (List.pairwise_append.1 hp).2.2 y hy x h⟩
+
+/-- **C07, the whole lookup.**  Take any history of a lookup in an honest population: any messages
+    attributed to it in any order, visits at any time.  If it ends in a closed state (which is the
+    only kind of state `visit_closest` leaves behind, `visit_closest_closes`), then every node that
+    was listed in any answer has been queried, unless 20 queried candidates precede it in the
+    lookup's order.  In other words: the 20 closest entries among all listed nodes were all
+    queried. -/
+theorem lookup_closure (U : Id → Addr → Prop) (hU : Honest U) (q0 : IterQuery) (h0 : CandOk U q0)
+    (ops : List LOp) (hops : AllIn U (listed ops)) (hcl : Closed (lrun q0 ops)) :
+    ∀ n ∈ listed ops, n.addr ∈ (lrun q0 ops).visited ∨
+      (((lrun q0 ops).closest.nodes.take Constants.K).length = Constants.K ∧
+        ∀ y ∈ (lrun q0 ops).closest.nodes.take Constants.K,
+          y.addr ∈ (lrun q0 ops).visited ∧ keyLt q0.closest.target y n) := by
+  obtain ⟨hok, hrep, _, _, htgt⟩ := lrun_merged U hU ops q0 h0 hops
+  intro n hn
+  obtain ⟨e, he, hsame⟩ := hrep n hn
+  rcases closed_candidate _ hok.sorted hcl e he with h | ⟨hlen, h⟩
+  · left; rw [← hsame.2]; exact h
+  · right
+    refine ⟨hlen, fun y hy => ⟨(h y hy).1, ?_⟩⟩
+    have := (h y hy).2
+    rw [htgt] at this
+    exact (keyLt_same _ y e n hsame).1 this
+
+/-- the same for the seeds the lookup started with (routing-table and cached candidates) -/
+theorem lookup_closure_seeds (U : Id → Addr → Prop) (hU : Honest U) (q0 : IterQuery) (h0 : CandOk U q0)
+    (ops : List LOp) (hops : AllIn U (listed ops)) (hcl : Closed (lrun q0 ops)) :
+    ∀ e ∈ q0.closest.nodes, e.addr ∈ (lrun q0 ops).visited ∨
+      (((lrun q0 ops).closest.nodes.take Constants.K).length = Constants.K ∧
+        ∀ y ∈ (lrun q0 ops).closest.nodes.take Constants.K,
+          y.addr ∈ (lrun q0 ops).visited ∧ keyLt q0.closest.target y e) := by
+  obtain ⟨hok, _, hmono, _, htgt⟩ := lrun_merged U hU ops q0 h0 hops
+  intro e he
+  rcases closed_candidate _ hok.sorted hcl e (hmono e he) with h | ⟨hlen, h⟩
+  · exact Or.inl h
+  · exact Or.inr ⟨hlen, fun y hy => ⟨(h y hy).1, by have := (h y hy).2; rw [htgt] at this; exact this⟩⟩
+
+/-! ### networks of at most 20 nodes: everything is queried -/
+
+/-- pigeonhole: a list without repetitions whose elements all come from `u` is no longer than `u` -/
+theorem length_le_of_nodup_subset {α} [DecidableEq α] (l u : List α) (hn : l.Nodup) (hsub : ∀ x ∈ l, x ∈ u) :
+    l.length ≤ u.length := by
+  induction l generalizing u with
+  | nil => simp
+  | cons a l ih =>
+    rw [List.nodup_cons] at hn
+    have hau : a ∈ u := hsub a List.mem_cons_self
+    have hsub' : ∀ x ∈ l, x ∈ u.erase a := by
+      intro x hx
+      have hxa : x ≠ a := by intro h; rw [h] at hx; exact hn.1 hx
+      exact (List.mem_erase_of_ne hxa).2 (hsub x (List.mem_cons_of_mem _ hx))
+    have := ih (u.erase a) hn.2 hsub'
+    rw [List.length_erase_of_mem hau] at this
+    have hpos : 0 < u.length := List.length_pos_of_mem hau
+    simp only [List.length_cons]
+    omega
+
+/-- a strictly sorted candidate list has no two entries with the same id -/
+theorem sorted_ids_nodup (t : Id) (l : List Node) (hs : l.Pairwise (keyLt t)) (hsec : ∀ a ∈ l, ∀ b ∈ l, a.id = b.id → a.isSecure = b.isSecure) :
+    (l.map (·.id)).Nodup := by
+  induction l with
+  | nil => simp
+  | cons a l ih =>
+    rw [List.pairwise_cons] at hs
+    simp only [List.map_cons, List.nodup_cons, List.mem_map, not_exists, not_and]
+    refine ⟨?_, ih hs.2 (fun x hx y hy => hsec x (List.mem_cons_of_mem _ hx) y (List.mem_cons_of_mem _ hy))⟩
+    intro b hb hid
+    have hlt := hs.1 b hb
+    have hs2 := hsec a List.mem_cons_self b (List.mem_cons_of_mem _ hb) hid.symm
+    rcases hlt with ⟨h1, h2⟩ | ⟨_, h⟩
+    · rw [hs2] at h1; rw [h1] at h2; cases h2
+    · rw [hid] at h; exact bytesCmp_lt_irrefl _ h
+
+/-- in an honest population enumerated by `univ`, the candidate list is no longer than `univ` -/
+theorem candidates_le_population (U : Id → Addr → Prop) (hU : Honest U) (univ : List Id)
+    (huniv : ∀ i a, U i a → i ∈ univ) (q : IterQuery) (hq : CandOk U q) :
+    q.closest.nodes.length ≤ univ.length := by
+  have hnd := sorted_ids_nodup q.closest.target q.closest.nodes hq.sorted (by
+    intro a ha b hb hid
+    have haddr : a.addr = b.addr := hU.addr_of_id _ _ _ (hq.allIn a ha) (by rw [hid]; exact hq.allIn b hb)
+    unfold Node.isSecure; rw [hid, haddr])
+  have := length_le_of_nodup_subset (q.closest.nodes.map (·.id)) univ hnd (by
+    intro i hi
+    obtain ⟨e, he, rfl⟩ := List.mem_map.1 hi
+    exact huniv _ _ (hq.allIn e he))
+  simpa using this
+
+/-- **C13 / C07, up to 20 nodes.** In an honest population of at most 20 nodes, a lookup that ends
+    closed has queried every seed and every node listed in any answer it received. -/
+theorem small_population_all_queried (U : Id → Addr → Prop) (hU : Honest U) (univ : List Id)
+    (huniv : ∀ i a, U i a → i ∈ univ) (hsmall : univ.length ≤ Constants.K)
+    (q0 : IterQuery) (h0 : CandOk U q0) (ops : List LOp) (hops : AllIn U (listed ops))
+    (hcl : Closed (lrun q0 ops)) :
+    (∀ n ∈ listed ops, n.addr ∈ (lrun q0 ops).visited) ∧
+    (∀ e ∈ q0.closest.nodes, e.addr ∈ (lrun q0 ops).visited) := by
+  obtain ⟨hok, hrep, hmono, _, _⟩ := lrun_merged U hU ops q0 h0 hops
+  have hlen := candidates_le_population U hU univ huniv _ hok
+  have hall : ∀ e ∈ (lrun q0 ops).closest.nodes, e.addr ∈ (lrun q0 ops).visited := by
+    intro e he
+    apply hcl e
+    rw [List.take_of_length_le (by omega)]
+    exact he
+  refine ⟨?_, fun e he => hall e (hmono e he)⟩
+  intro n hn
+  obtain ⟨e, he, hsame⟩ := hrep n hn
+  rw [← hsame.2]
+  exact hall e he
+
+
+/-! ### the network around the lookup: loss-free delivery, reachability, values -/
+
+theorem mem_listed (ops : List LOp) (env : Env) (src : Addr) (m : Message) (h : LOp.msg env src m ∈ ops) :
+    ∀ n ∈ listedIn m, n ∈ listed ops := by
+  induction ops with
+  | nil => cases h
+  | cons op ops ih =>
+    intro n hn
+    rcases List.mem_cons.1 h with h1 | h1
+    · subst h1; simp [listed, hn]
+    · have hrest := ih h1 n hn
+      cases op with
+      | msg _ _ _ => simp only [listed, List.mem_append]; exact Or.inr hrest
+      | visitAddrs _ _ _ => simp only [listed]; exact hrest
+      | visitClosest _ _ => simp only [listed]; exact hrest
+
+/-- `answers a = some ns`: the live server at `a` answers this lookup's request listing `ns`.
+    The network is loss-free for the lookup when the answer of every queried live server has been
+    handled by the end of the history. -/
+def LossFree (answers : Addr → Option (List Node)) (q0 : IterQuery) (ops : List LOp) : Prop :=
+  ∀ a ∈ (lrun q0 ops).visited, ∀ ns, answers a = some ns →
+    ∃ env m, LOp.msg env a m ∈ ops ∧ listedIn m = ns
+
+/-- `b` can be reached from `a` by following what the servers list -/
+inductive Reaches (answers : Addr → Option (List Node)) : Addr → Addr → Prop
+  | refl (a : Addr) : Reaches answers a a
+  | step (a : Addr) (ns : List Node) (n : Node) (b : Addr) :
+      answers a = some ns → n ∈ ns → Reaches answers n.addr b → Reaches answers a b
+
+/-- **C13: with up to 20 servers a lookup queries every server** it can reach: in a loss-free
+    honest network of at most 20 nodes, a lookup that ends closed has queried every node reachable
+    (through the servers' answers) from any address it queried — all of them, when the knows-graph
+    is strongly connected. -/
+theorem small_network_reachable_queried (U : Id → Addr → Prop) (hU : Honest U) (univ : List Id)
+    (huniv : ∀ i a, U i a → i ∈ univ) (hsmall : univ.length ≤ Constants.K)
+    (q0 : IterQuery) (h0 : CandOk U q0) (ops : List LOp) (hops : AllIn U (listed ops))
+    (hcl : Closed (lrun q0 ops)) (answers : Addr → Option (List Node)) (hloss : LossFree answers q0 ops) :
+    ∀ a b, a ∈ (lrun q0 ops).visited → Reaches answers a b → b ∈ (lrun q0 ops).visited := by
+  obtain ⟨hlisted, _⟩ := small_population_all_queried U hU univ huniv hsmall q0 h0 ops hops hcl
+  intro a b ha hr
+  induction hr with
+  | refl a => exact ha
+  | step a ns n b hans hn _ ih =>
+    obtain ⟨env, m, hmem, hl⟩ := hloss a ha ns hans
+    exact ih (hlisted n (mem_listed ops env a m hmem n (by rw [hl]; exact hn)))
+
+/-! #### values -/
+
+theorem lstep_target (q : IterQuery) (op : LOp) : (lstep q op).target = q.target := by
+  cases op with
+  | msg env src m =>
+    show (lookupStep q env src m).1.target = q.target
+    obtain ⟨ht, _, _⟩ := C02.absorb_fields q env.now src m
+    unfold lookupStep
+    split <;> exact ht
+  | visitAddrs a tos now => exact (visitAll_fields a q tos now).2.1
+  | visitClosest a now => exact (visitAll_fields a q q.closestCandidates now).2.1
+
+/-- **An honest holder's answer reaches the callers.** Whenever in the lookup's history the answer
+    of a node holding the immutable value arrives — however late, whatever came before — the value
+    is handed to the lookup's callers. -/
+theorem holder_answer_is_yielded (ops : List LOp) :
+    ∀ (q : IterQuery) (env : Env) (src : Addr) (m : Message) (i : Id) (tok : Bytes) (ns : Option (List Node)) (v : Bytes),
+      LOp.msg env src m ∈ ops → m.mtype = .response (.getImmutable i tok ns v) →
+      hashImmutable v = q.target.bytes → Value.immutable v ∈ lemits q ops := by
+  induction ops with
+  | nil => intro q env src m i tok ns v h; cases h
+  | cons op ops ih =>
+    intro q env src m i tok ns v hmem hm hh
+    rcases List.mem_cons.1 hmem with h | h
+    · subst h
+      simp only [lemits, List.mem_append]
+      left
+      have hv : (lookupStep q env src m).2.1 = some (.immutable v) := by
+        have ht := (C02.absorb_fields q env.now src m).1
+        have : (queryValue env.verify (absorb q env.now src m) m.mtype).1 = some (.immutable v) := by
+          rw [hm]; simp [queryValue, ht, hh]
+        unfold lookupStep
+        split
+        · rename_i v' b heq; rw [heq] at this; simpa using this
+        · rename_i b heq; rw [heq] at this; cases this
+      rw [hv]; simp
+    · simp only [lemits, List.mem_append]
+      right
+      exact ih (lstep q op) env src m i tok ns v h hm (by rw [lstep_target]; exact hh)
+
+/-- **C01 for networks of up to 20 nodes**, on the lookup's history: in a loss-free honest network
+    of at most 20 nodes, if a live node holding the value can be reached (through the servers'
+    answers) from any address the lookup queried, the lookup queries it, and its answer hands the
+    value to the reader's callers. -/
+theorem small_network_value_found (U : Id → Addr → Prop) (hU : Honest U) (univ : List Id)
+    (huniv : ∀ i a, U i a → i ∈ univ) (hsmall : univ.length ≤ Constants.K)
+    (q0 : IterQuery) (h0 : CandOk U q0) (ops : List LOp) (hops : AllIn U (listed ops))
+    (hcl : Closed (lrun q0 ops)) (answers : Addr → Option (List Node)) (hloss : LossFree answers q0 ops)
+    (holder : Addr) (v : Bytes) (hhash : hashImmutable v = q0.target.bytes)
+    (hreach : ∃ a ∈ (lrun q0 ops).visited, Reaches answers a holder)
+    (hserves : holder ∈ (lrun q0 ops).visited →
+      ∃ env m i tok ns, LOp.msg env holder m ∈ ops ∧ m.mtype = .response (.getImmutable i tok ns v)) :
+    holder ∈ (lrun q0 ops).visited ∧ Value.immutable v ∈ lemits q0 ops := by
+  obtain ⟨a, ha, hr⟩ := hreach
+  have hq := small_network_reachable_queried U hU univ huniv hsmall q0 h0 ops hops hcl answers hloss a holder ha hr
+  obtain ⟨env, m, i, tok, ns, hmem, hm⟩ := hserves hq
+  exact ⟨hq, holder_answer_is_yielded ops q0 env holder m i tok ns v hmem hm hhash⟩
+
+
+/-! #### the hypotheses are satisfiable (non-vacuity) -/
+
+/-- a population of two nodes -/
+def demoU (i : Id) (a : Addr) : Prop :=
+  (i = ⟨List.replicate 20 1⟩ ∧ a = ⟨1, 6881⟩) ∨ (i = ⟨List.replicate 20 2⟩ ∧ a = ⟨2, 6881⟩)
+
+example : Honest demoU := by
+  refine ⟨?_, ?_, ?_, ?_⟩
+  · rintro i a (⟨rfl, _⟩ | ⟨rfl, _⟩) <;> rfl
+  · rintro i j a (⟨rfl, rfl⟩ | ⟨rfl, rfl⟩) (⟨rfl, h⟩ | ⟨rfl, h⟩) <;> first | rfl | (exfalso; revert h; decide)
+  · rintro i a b (⟨rfl, rfl⟩ | ⟨rfl, rfl⟩) (⟨h, rfl⟩ | ⟨h, rfl⟩) <;> first | rfl | (exfalso; revert h; decide)
+  · rintro i j a b (⟨rfl, rfl⟩ | ⟨rfl, rfl⟩) (⟨rfl, rfl⟩ | ⟨rfl, rfl⟩) h <;> first | rfl | (exfalso; revert h; decide)
+
+/-- every fresh lookup on a 20-byte target meets `CandOk`, for every population -/
+example (U : Id → Addr → Prop) (rid target : Id) (k : GetKind) (h : target.bytes.length = 20) :
+    CandOk U (IterQuery.new rid target k) :=
+  ⟨h, List.Pairwise.nil, fun _ he => by cases he⟩
+
+/-- a closed, loss-free history exists: ask the first node, which lists the second; ask the second -/
+example :
+    let q0 := IterQuery.new ⟨List.replicate 20 9⟩ ⟨List.replicate 20 3⟩ .findNode
+    let a : Actor := Actor.create { serverMode := false, bootstrap := [], publicIp := none } 1 0
+    let env : Env := { now := 0, wall := 0, verify := fun _ _ _ => true }
+    let n2 : Node := { id := ⟨List.replicate 20 2⟩, addr := ⟨2, 6881⟩ }
+    let m1 : Message := { tid := 0, mtype := .response (.findNode ⟨List.replicate 20 1⟩ [n2]), version := none, requesterIp := none, readOnly := false }
+    let m2 : Message := { tid := 1, mtype := .response (.findNode ⟨List.replicate 20 2⟩ []), version := none, requesterIp := none, readOnly := false }
+    let ops := [LOp.visitAddrs a [⟨1, 6881⟩] 0, .msg env ⟨1, 6881⟩ m1, .visitClosest a 0, .msg env ⟨2, 6881⟩ m2, .visitClosest a 0]
+    Closed (lrun q0 ops) ∧ (lrun q0 ops).visited = [⟨1, 6881⟩, ⟨2, 6881⟩] ∧ AllIn demoU (listed ops) := by
+  refine ⟨?_, ?_, ?_⟩
+  · rw [closed_iff]; decide +kernel
+  · decide +kernel
+  · intro e he
+    have : e = { id := ⟨List.replicate 20 2⟩, addr := ⟨2, 6881⟩ } := by
+      simp [listed, listedIn, Response.closerNodes] at he; exact he
+    subst this
+    exact Or.inr ⟨rfl, rfl⟩
 
 end Mainline.Props.C07
